@@ -152,6 +152,7 @@ func ParseNDStream(r io.Reader, res chan<- Stream, reuse <-chan *ParsedJson) {
 	}()
 	go func() {
 		defer close(queue)
+		verifSeq := 0
 		for {
 			tmp := tmpPool.Get().([]byte)
 			tmp = tmp[:tmpSize]
@@ -176,11 +177,15 @@ func ParseNDStream(r io.Reader, res chan<- Stream, reuse <-chan *ParsedJson) {
 			if len(tmp) > 0 {
 				result := make(chan Stream, 0)
 				queue <- result
+				verifSeq++
+				seq := verifSeq
+				verifStream(res, "ChunkQueued", seq, len(tmp))
 				go func() {
 					var pj internalParsedJson
 					pj.copyStrings = true
 					select {
 					case v := <-reuse:
+						verifStream(res, "ReuseTaken", seq, 0)
 						if cap(v.Message) >= tmpSize+1024 {
 							tmpPool.Put(v.Message)
 							v.Message = nil
@@ -190,6 +195,7 @@ func ParseNDStream(r io.Reader, res chan<- Stream, reuse <-chan *ParsedJson) {
 					default:
 					}
 					parseErr := pj.parseMessage(tmp, true)
+					verifStream(res, "ChunkParsed", seq, len(tmp))
 					if parseErr != nil {
 						result <- Stream{
 							Value: nil,
